@@ -45,6 +45,22 @@ def limits_for(n):
     return sorted(set([0, 1, 2, max(0, n - 1), n, n + 1, U32MAX]))
 
 
+DTD_ZOO = [
+    "<!DOCTYPE e [<!ELEMENT e ANY><!ATTLIST e a CDATA \"x>y\" b CDATA 'q'><!NOTATION n PUBLIC \"p'q\" 's\"t'><!ENTITY a \"v\"><!ENTITY % p \"w\">"
+    "<!ENTITY x SYSTEM \"u\" NDATA n><!ENTITY y PUBLIC 'p' \"s\"><?pi d?><!--c-->]><e a=\"1\">&a;</e>",
+    "<?xml version='1.0'?><!DOCTYPE e SYSTEM 'e.dtd' [ <!ENTITY a '<i k=\"&b;\"/>'> <!ENTITY b 'é'> ]><e>&a;<![CDATA[x]]></e><!--t-->",
+    "<!DOCTYPE e PUBLIC \"-//A//B\" 'e.dtd'><e xmlns:p='u' p:a='1'><p:b/></e>",
+]
+
+
+def rxlib_valid_utf8(b_):
+    try:
+        b_.decode("utf-8")
+        return True
+    except UnicodeDecodeError:
+        return False
+
+
 def c01_cases(tier, seed):
     q = tier == "quick"
     cs = []
@@ -55,6 +71,10 @@ def c01_cases(tier, seed):
     cs += gens.g_ent_cycles(12 if q else 32) + gens.g_ent_fanout([1, 2, 3, 16, 255, 256], [1, 2, 9, 10, 11]) + gens.g_ent_random(seed, 500 if q else 5000)
     cs += gens.g_cst(seed, 400 if q else 4000, flags="", renderings=2, hoist=True)
     cs += gens.g_nonchar() + gens.g_long(flags="")
+    # every proper prefix of documents that exercise every kind of DTD declaration, with quoted literals of both styles
+    for zoo in DTD_ZOO:
+        b_ = zoo.encode()
+        cs += [Case(b_[:i], "", True, meta={"gen": "dtd-zoo-prefix", "cut": i}) for i in range(len(b_) + 1) if rxlib_valid_utf8(b_[:i])]
     cs += [Case(c.data, "", True, meta=c.meta) for c in gens.g_pieces_text(2 if q else 3)]
     cs += [Case(c.data, "", True, meta=c.meta) for c in gens.g_pieces_attr(2 if q else 3)]
     # option sweep on a sample
@@ -298,6 +318,10 @@ def illformed_catalogue():
         ("<?a+b?><r/>", "no whitespace between a PI target and its content"), ("<r><?p+?></r>", "no whitespace between a PI target and its content"),
         ("<r/><?p'x'?>", "no whitespace between a PI target and its content"),
         ("<!DOCTYPE r [<?p=q?>]><r/>", "no whitespace between a PI target and its content (in the DTD)"),
+        # ']]>' is refused in character data also when it arrives as the replacement text of an entity
+        ("<!DOCTYPE a [<!ENTITY e ']]>'>]><a>&e;</a>", "']]>' in character data through an entity"),
+        ("<!DOCTYPE a [<!ENTITY e 'x]]>y'><!ENTITY f '&e;'>]><a>&f;</a>", "']]>' in character data through a nested entity"),
+        ("<!DOCTYPE a [<!ENTITY e 'x]]>y'>]><a><b>t&e;</b></a>", "']]>' in character data through an entity after literal text"),
         ("<r>&undefined;</r>", "undefined entity"), ("<r a='&undefined;'/>", "undefined entity in attribute"),
         ("<r>&#;</r>", "malformed character reference"), ("<r>&#x;</r>", "malformed character reference"),
         ("<r>&#xZ;</r>", "malformed character reference"), ("<r>& </r>", "bare ampersand"),
@@ -504,6 +528,9 @@ def c13_cases(tier, seed):
     cs += gens.g_ent_random(seed, 300 if q else 3000, flags="ncpb")
     # the documented saturation limits of the attribute sub-ranges
     cs.append(Case("<r " + "a" * 70000 + "='v'/>", "p", True, meta={"gen": "qname-sat"}))
+    # just below the documented limits: the sub-ranges must still be exact
+    for nlen, pad in ((65533, 0), (65534, 0), (65400, 100), (65000, 126), (65279, 127)):
+        cs.append(Case("<r x='1' " + "a" * nlen + " " * pad + "=" + " " * pad + "'value'/>", "p", True, meta={"gen": "qname-below-sat", "name_len": nlen, "pad": pad}))
     cs.append(Case("<r a" + " " * 300 + "='v'/>", "p", True, meta={"gen": "eq-sat"}))
     cs += gens.g_long(flags="ncpb")
     rnd = random.Random(seed + 3)
@@ -764,6 +791,10 @@ def c18_cases(tier, seed):
             cs.append(Case("<!DOCTYPE r [<!ENTITY e '<a k=\"" + body + "\"/>'><!ENTITY f 'x&e;y'>]><r>&f;</r>", "ncb", True, meta={"gen": "fast-attr-in-entity2", "expect_borrowed_attr": borrowed}))
     for body, borrowed in (("plain", True), ("a&amp;b", False), ("é中", True)):
         cs.append(Case("<!DOCTYPE r [<!ENTITY e '<a>" + body + "</a>'>]><r>&e;</r>", "ncb", True, meta={"gen": "fast-text-in-entity", "expect_borrowed_text": borrowed, "text_node": 3}))
+        # a text node that consists solely of a reference to an entity whose replacement text is that literal piece
+        # (directly and through another entity): the node borrows the entity value inside the DOCTYPE
+        cs.append(Case("<!DOCTYPE r [<!ENTITY e '" + body + "'>]><r>&e;</r>", "ncb", True, meta={"gen": "fast-text-entity-value", "expect_borrowed_text": borrowed, "text_node": 2}))
+        cs.append(Case("<!DOCTYPE r [<!ENTITY e '" + body + "'><!ENTITY o '&e;'>]><r>&o;</r>", "ncb", True, meta={"gen": "fast-text-entity-value-nested", "expect_borrowed_text": borrowed, "text_node": 2}))
     return cs
 
 
